@@ -338,35 +338,51 @@ class Box:
             edges.add("bottom")
         assert len(edges) in (1, 2), f"{edge} doesn't have a direction"
 
-        intersections: list[diagram.Vector2D] = []
+        def miss(low: float, value: float, high: float) -> float:
+            """Return how far ``value`` lies outside of ``[low, high]``."""
+            return max(low - value, value - high, 0)
+
+        intersections: list[tuple[float, diagram.Vector2D]] = []
         if "top" in edges:
             border = (self.pos, self.pos + self.size @ (1, 0))
             with contextlib.suppress(ValueError):
                 intersection = diagram.line_intersect(border, edge)
-                if border[0].x <= intersection.x <= border[1].x:
-                    intersections.append(intersection)
+                distance = miss(border[0].x, intersection.x, border[1].x)
+                intersections.append((distance, intersection))
         if "left" in edges:
             border = (self.pos, self.pos + self.size @ (0, 1))
             with contextlib.suppress(ValueError):
                 intersection = diagram.line_intersect(border, edge)
-                if border[0].y <= intersection.y <= border[1].y:
-                    intersections.append(intersection)
+                distance = miss(border[0].y, intersection.y, border[1].y)
+                intersections.append((distance, intersection))
         if "right" in edges:
             border = (self.pos + self.size @ (1, 0), self.pos + self.size)
             with contextlib.suppress(ValueError):
                 intersection = diagram.line_intersect(border, edge)
-                if border[0].y <= intersection.y <= border[1].y:
-                    intersections.append(intersection)
+                distance = miss(border[0].y, intersection.y, border[1].y)
+                intersections.append((distance, intersection))
         if "bottom" in edges:
             border = (self.pos + self.size @ (0, 1), self.pos + self.size)
             with contextlib.suppress(ValueError):
                 intersection = diagram.line_intersect(border, edge)
-                if border[0].x <= intersection.x <= border[1].x:
-                    intersections.append(intersection)
+                distance = miss(border[0].x, intersection.x, border[1].x)
+                intersections.append((distance, intersection))
 
+        # The edge enters through the border that it intersects. If it is
+        # aimed at a corner, it intersects both adjacent borders in the
+        # same point (or, due to rounding, misses both by a hair).
         assert len(intersections) > 0, f"{edge} doesn't intersect {edges}"
-        assert len(intersections) < 2, f"{edge} intersects multiple {edges}"
-        return intersections[0]
+        distance, result = min(intersections, key=lambda i: i[0])
+        assert distance <= 1e-6, f"{edge} doesn't intersect {edges}"
+        assert all(
+            d > 0
+            or (
+                math.isclose(i.x, result.x, abs_tol=1e-6)
+                and math.isclose(i.y, result.y, abs_tol=1e-6)
+            )
+            for d, i in intersections
+        ), f"{edge} intersects multiple {edges}"
+        return result
 
     def __vector_snap_manhattan(
         self, point: diagram.Vector2D, direction: diagram.Vector2D
